@@ -580,4 +580,6 @@ def run(P, R, tier):
     # the walk stamp stored on a module is not truncated (a 2-bit field aliases pass 5 with pass 1)
     rules.narrowing_fields(P, R, 'C20.WID.1', ('src/module.c',))
     rules.counter_widths(P, R, 'C20.WID.2', recs=('module',))
+    # a module is found again (and unloaded in order) by its name: the registry keeps its own copy of it
+    rules.param_string_escapes(P, R, 'C20.OWN.9', ('src/module.c',))
     return EXPLANATION, ASSUMPTIONS
